@@ -34,9 +34,11 @@ Lemma skipn_S_tl : forall A n (l : list A), skipn (S n) l = skipn n (tl l).
 Proof. intros A n [|x l]; [cbn [tl]; now rewrite !skipn_nil|reflexivity]. Qed.
 
 (* ================================================================ the relation *)
-(* user names: not a register (#n) and not a loop register (L#n) *)
+(* the hidden source name of the counter of an anonymous `from` loop (Lang/Eval.v) *)
+Definition hid : str := [0%N].
+(* user names: not a register (#n), not a loop register (L#n), not the hidden counter *)
 Definition uname0 (x : str) : Prop :=
-  src_name x /\ match x with 76%N :: 35%N :: _ => False | _ => True end.
+  src_name x /\ match x with 76%N :: 35%N :: _ => False | _ => True end /\ x <> hid.
 
 Section Names.
 (* the names of the module-level FUNCTIONS visible in the current activation: they are kept out of the data
@@ -47,7 +49,9 @@ Definition uname (x : str) : Prop := uname0 x /\ ~ In x funs.
 Lemma uname_src : forall x, uname x -> src_name x.
 Proof. intros x H. exact (proj1 (proj1 H)). Qed.
 Lemma uname_not_lregn : forall x n, uname x -> x <> lregn n.
-Proof. intros x n [[_ H] _] E. subst x. exact H. Qed.
+Proof. intros x n [[_ [H _]] _] E. subst x. exact H. Qed.
+Lemma uname_not_hid : forall x, uname x -> x <> hid.
+Proof. intros x [[_ [_ H]] _]. exact H. Qed.
 Lemma uname_nfun : forall x, uname x -> ~ In x funs.
 Proof. intros x H. exact (proj2 H). Qed.
 
@@ -279,7 +283,7 @@ Qed.
 Fixpoint NS (l : list scope) : Prop :=
   match l with
   | [] => True
-  | sc :: r => (forall y, assoc y sc <> None -> lookup_scopes y r = None) /\ NS r
+  | sc :: r => (forall y, y <> hid -> assoc y sc <> None -> lookup_scopes y r = None) /\ NS r
   end.
 
 Lemma NS_tl : forall l, NS l -> NS (tl l).
@@ -287,18 +291,25 @@ Proof. intros [|sc l] H; [exact Logic.I|exact (proj2 H)]. Qed.
 Lemma NS_skipn : forall m l, NS l -> NS (skipn m l).
 Proof. induction m as [|m IH]; intros l H; [exact H|]. destruct l as [|sc l]; [exact Logic.I|]. cbn [skipn]. apply IH. exact (proj2 H). Qed.
 Lemma NS_push : forall l, NS l -> NS ([] :: l).
-Proof. intros l H. cbn [NS]. split; [intros y Hy; cbn in Hy; congruence|exact H]. Qed.
-Lemma NS_declare : forall sc l x c, NS (sc :: l) -> lookup_scopes x (sc :: l) = None -> NS (assoc_set x c sc :: l).
+Proof. intros l H. cbn [NS]. split; [intros y _ Hy; cbn in Hy; congruence|exact H]. Qed.
+Lemma NS_declare : forall sc l x c, NS (sc :: l) -> x = hid \/ lookup_scopes x (sc :: l) = None -> NS (assoc_set x c sc :: l).
 Proof.
   intros sc l x c [H1 H2] Hn. cbn [NS]. split; [|exact H2].
-  intros y Hy. cbn [lookup_scopes] in Hn. destruct (assoc x sc) eqn:Ex; [discriminate|].
-  destruct (list_eq_dec N.eq_dec y x) as [->|Hne]; [exact Hn|].
-  rewrite assoc_set_other in Hy by exact Hne. now apply H1.
+  intros y Hyh Hy.
+  destruct (list_eq_dec N.eq_dec y x) as [->|Hne].
+  - destruct Hn as [Hn|Hn]; [congruence|]. cbn [lookup_scopes] in Hn. destruct (assoc x sc) eqn:Ex; [discriminate|exact Hn].
+  - rewrite assoc_set_other in Hy by exact Hne. now apply H1.
+Qed.
+Lemma NS_undeclare : forall sc l x, NS (sc :: l) -> NS (assoc_del x sc :: l).
+Proof.
+  intros sc l x [H1 H2]. cbn [NS]. split; [|exact H2]. intros y Hyh Hy. apply H1; [exact Hyh|].
+  intros E. apply Hy. clear -E. induction sc as [|[k v] sc IH]; [reflexivity|]. cbn [assoc assoc_del] in *.
+  destruct (str_eqb k x) eqn:Ekx; destruct (str_eqb k y) eqn:Eky; try discriminate; cbn [assoc]; rewrite ?Eky; auto.
 Qed.
 (* under NS a name bound in an outer scope is not bound in the innermost one *)
-Lemma NS_lookup_tl : forall sc l x c, NS (sc :: l) -> lookup_scopes x l = Some c -> lookup_scopes x (sc :: l) = Some c.
+Lemma NS_lookup_tl : forall sc l x c, NS (sc :: l) -> x <> hid -> lookup_scopes x l = Some c -> lookup_scopes x (sc :: l) = Some c.
 Proof.
-  intros sc l x c [H1 _] Hl. cbn [lookup_scopes]. destruct (assoc x sc) eqn:E; [|exact Hl].
+  intros sc l x c [H1 _] Hx Hl. cbn [lookup_scopes]. destruct (assoc x sc) eqn:E; [|exact Hl].
   rewrite H1 in Hl by congruence. discriminate.
 Qed.
 
@@ -378,6 +389,48 @@ Qed.
 Lemma pins_weaken_ : forall P c w l fs st cs, pins_ok (add_vpin P c w) l fs st cs -> pins_ok P l fs st cs.
 Proof.
   intros P c w l fs st cs [H1 H2]. split; [|exact H2]. intros cy w0 Hq. apply H1. cbn [add_vpin vpin]. now right.
+Qed.
+
+(* a pinset with fewer pins *)
+Lemma pins_imp_ : forall P P' l fs st cs, pins_ok P l fs st cs ->
+  (forall cy w, vpin P' cy w -> vpin P cy w) -> (forall c v, spin P' c v -> spin P c v) -> pins_ok P' l fs st cs.
+Proof. intros P P' l fs st cs [H1 H2] Hv Hs. split; [intros cy w Hq; exact (H1 cy w (Hv _ _ Hq))|intros c v Hq; exact (H2 c v (Hs _ _ Hq))]. Qed.
+
+(* ---------------------------------------------------------------- the innermost scope changes, lookups of user names do not *)
+Lemma Rfr_scope : forall st cs sc sc' l fs, Rfr st cs (sc :: l) fs ->
+  (forall x, uname x -> assoc x sc' = assoc x sc) -> Rfr st cs (sc' :: l) fs.
+Proof.
+  intros st cs sc sc' l [|f fs] H Hs; cbn in H; [contradiction|]. destruct H as [Hl H]. cbn [Rfr]. split; [|exact H].
+  intros x Hx. specialize (Hl x Hx). cbn [lookup_scopes] in *. now rewrite (Hs x Hx).
+Qed.
+Lemma pairs_scope : forall sc sc' l fs c c', (forall x, uname x -> assoc x sc' = assoc x sc) ->
+  pairs (sc' :: l) fs c c' <-> pairs (sc :: l) fs c c'.
+Proof.
+  intros sc sc' l [|f fs] c c' Hs; cbn [pairs]; [tauto|].
+  split; (intros [(x & Hx & E1 & E2)|Hp]; [left; exists x; split; [exact Hx|split; [|exact E2]]|right; exact Hp]);
+    cbn [lookup_scopes] in *; [rewrite <- (Hs x Hx)|rewrite (Hs x Hx)]; exact E1.
+Qed.
+Lemma bij_scope : forall sc sc' l fs, bij (sc :: l) fs -> (forall x, uname x -> assoc x sc' = assoc x sc) -> bij (sc' :: l) fs.
+Proof.
+  intros sc sc' l fs H Hs c1 c1' c2 c2' H1 H2. apply (pairs_scope sc sc' l fs _ _ Hs) in H1, H2. exact (H _ _ _ _ H1 H2).
+Qed.
+
+(* ---------------------------------------------------------------- the relation only looks at the cells in `pairs` *)
+Lemma Rfr_pairs_vals : forall st cs st' cs' l fs, Rfr st cs l fs ->
+  (forall c c' v, pairs l fs c c' -> nth_error st (N.to_nat c) = Some v -> nth_error st' (N.to_nat c) = Some v) ->
+  (forall c c' w, pairs l fs c c' -> nth_error cs (N.to_nat c') = Some w -> nth_error cs' (N.to_nat c') = Some w) ->
+  Rfr st' cs' l fs.
+Proof.
+  intros st cs st' cs'. induction l as [|sc l IH]; intros [|f fs] H Hs Hc; cbn in H; try contradiction.
+  destruct H as [Hl H]. cbn [Rfr]. split.
+  - intros x Hx. specialize (Hl x Hx).
+    destruct (lookup_scopes x (sc :: l)) as [cy|] eqn:E1, (find_in_function x (f :: fs)) as [cy'|] eqn:E2;
+      cbn [orel] in *; try assumption.
+    assert (Hp : pairs (sc :: l) (f :: fs) cy cy') by (cbn [pairs]; left; exists x; auto).
+    destruct Hl as (v & A1 & A2 & A3). exists v. split; [exact (Hs _ _ _ Hp A1)|]. split; [exact A2|exact (Hc _ _ _ Hp A3)].
+  - destruct l as [|sc' l]; [exact H|]. destruct H as [Hsp H]. split; [exact Hsp|]. apply IH; [exact H| |].
+    + intros c c' v Hp. apply (Hs c c' v). cbn [pairs]. right. exact Hp.
+    + intros c c' w Hp. apply (Hc c c' w). cbn [pairs]. right. exact Hp.
 Qed.
 
 Lemma lookup_app_some : forall x l r c, lookup_scopes x l = Some c -> lookup_scopes x (l ++ r) = Some c.
